@@ -35,7 +35,7 @@ _ACC_OPTS = dict(operator_calls={('vpinst_Fn', 'operator()'): _h_integrand_call,
                                   ('discrete_distribution', 'operator()'): _h_selector_call})
 
 # obligations named for property X also count for the properties whose statement is composed of X (see vp/check.py)
-COMPOSED_OF = {'C03': ('C05', 'C19'), 'C04': ('C16', 'C10', 'C20'), 'C01': ('C02', 'C07', 'C17'), 'C07': ('C17', 'C01', 'C19'), 'C20': ('C12',), 'C12': ('C13',), 'C17': ('C07', 'C01', 'C09')}
+COMPOSED_OF = {'C03': ('C05', 'C19'), 'C04': ('C16', 'C10', 'C20'), 'C01': ('C02', 'C07', 'C17'), 'C07': ('C17', 'C01', 'C19'), 'C20': ('C12',), 'C12': ('C13',), 'C17': ('C07', 'C01', 'C09'), 'C19': ('C05',)}
 
 
 def X_qtype(n):
